@@ -99,6 +99,16 @@ func (s *Sched) Reseed(seed uint64) {
 	s.mu.Unlock()
 }
 
+// AbandonTasks forgets every unfinished task (their goroutines belong to a
+// process generation that has just crashed and will never finish).
+func (s *Sched) AbandonTasks() {
+	s.tasks.Store(0)
+	select {
+	case s.wake <- struct{}{}:
+	default:
+	}
+}
+
 // Uninstall removes the scheduler (yields become no-ops).
 func Uninstall() { cur.Store(nil) }
 
@@ -196,7 +206,9 @@ func (s *Sched) Go(name string, f func()) {
 	s.tasks.Add(1)
 	go func() {
 		defer func() {
-			s.tasks.Add(-1)
+			if s.tasks.Add(-1) < 0 {
+				s.tasks.Store(0)
+			}
 			select {
 			case s.wake <- struct{}{}:
 			default:
